@@ -61,7 +61,14 @@ fn case_hdr(a: &[i64]) -> String {
 }
 
 fn case_rot(a: &[i64]) -> String {
-    let (init, n) = (a[0] as i32, a[1] as i32);
+    case_rot_at(a, false)
+}
+
+/// `late`: the meta data are those of term count n+1 (already rotated, offsets as given), the call is the late one of a
+/// publisher that still holds (n, init+n)
+fn case_rot_at(a: &[i64], late: bool) -> String {
+    let (init, n0) = (a[0] as i32, a[1] as i32);
+    let n = if late { n0 + 1 } else { n0 };
     let offs = [a[2], a[3], a[4]];
     let mem = AlignedBuffer::with_capacity(lbd::LOG_META_DATA_LENGTH);
     let md = AtomicBuffer::from_aligned(&mem);
@@ -82,7 +89,7 @@ fn case_rot(a: &[i64]) -> String {
         md.get::<i64>(tail_off + 16),
         md.get::<i32>(*lbd::LOG_ACTIVE_TERM_COUNT_OFFSET)
     );
-    let r = catch(|| lbd::rotate_log(&md, n, t));
+    let r = if late { catch(|| lbd::rotate_log(&md, n0, init.wrapping_add(n0))) } else { catch(|| lbd::rotate_log(&md, n, t)) };
     let after = match r {
         Ok(()) => format!(
             "Ok ({}, {}, {}, {})",
@@ -216,6 +223,7 @@ fn main() {
             "pos" => case_pos(&a),
             "hdr" => case_hdr(&a),
             "rot" => case_rot(&a),
+            "rotl" => case_rot_at(&a, true),
             "pub" => case_pub(&a),
             "ppos" => case_ppos(&a),
             "xpub" => case_xpub(&a),
